@@ -353,7 +353,15 @@ wait:
 		case r = <-ch:
 			break wait
 		case <-tick.C:
-			if used := cpuSeconds(pid) - cpu0; used > limit {
+			// the limit adapts to what requests of this run are known to cost: never below the configured value, and
+			// never below 20x the costliest request completed so far
+			maxExpandCPU.Lock()
+			lim := limit
+			if 20*maxExpandCPU.v > lim {
+				lim = 20 * maxExpandCPU.v
+			}
+			maxExpandCPU.Unlock()
+			if used := cpuSeconds(pid) - cpu0; used > lim {
 				p.cmd.Process.Kill()
 				<-ch
 				p.in.Close()
